@@ -107,7 +107,7 @@ Proof.
     [discriminate|].
   fold (project_row G items r).
   destruct (String.eqb (item_name it) v) eqn:E.
-  - destruct it as [[ | x | | | | ] al]; cbn [fst]; try discriminate.
+  - destruct it as [[ | x | | | | | ] al]; cbn [fst]; try discriminate.
     rewrite String.eqb_eq. intros ->. reflexivity.
   - exact IH.
 Qed.
@@ -341,7 +341,7 @@ Lemma passes_through_var : forall v items, passes_through v items = true ->
 Proof.
   intros v items; induction items as [|it items IH]; cbn [passes_through]; [discriminate|].
   destruct (String.eqb (item_name it) v).
-  - destruct it as [[ | x | | | | ] al]; cbn [fst]; try discriminate.
+  - destruct it as [[ | x | | | | | ] al]; cbn [fst]; try discriminate.
     intros E. apply String.eqb_eq in E. subst. exists (EVar v, al). split; [left; reflexivity|reflexivity].
   - intros H. destruct (IH H) as (it' & H1 & H2). exists it'. split; [right; exact H1|exact H2].
 Qed.
@@ -361,7 +361,7 @@ Proof.
               && (match al with None => true | Some a => String.eqb a v end)) eqn:ID.
     + (* the identity item *)
       intros _. left. apply andb_true_iff in ID as [I1 I2].
-      destruct e as [ | x | | | | ]; try discriminate I1. apply String.eqb_eq in I1. subst x.
+      destruct e as [ | x | | | | | ]; try discriminate I1. apply String.eqb_eq in I1. subst x.
       assert (item_name (EVar v, al) = v) as Nm.
       { unfold item_name. cbn [snd fst]. destruct al as [a|]; [apply String.eqb_eq in I2; exact I2|reflexivity]. }
       rewrite Nm, String.eqb_refl. cbn [fst]. rewrite ?String.eqb_refl. reflexivity.
@@ -370,7 +370,7 @@ Proof.
       assert (item_name (e, al) <> v) as Nn.
       { destruct al as [a|].
         - unfold item_name. cbn [snd]. intros ->. rewrite String.eqb_refl in AL. discriminate.
-        - destruct e as [ | x | | | | ]; try (apply NC; [left; reflexivity|reflexivity]).
+        - destruct e as [ | x | | | | | ]; try (apply NC; [left; reflexivity|reflexivity]).
           unfold item_name. cbn [snd fst expr_name]. intros ->. rewrite String.eqb_refl in ID. discriminate. }
       apply String.eqb_neq in Nn. rewrite Nn.
       destruct (IH found NC' H) as [P|[F N]]; [left; exact P|right].
@@ -424,7 +424,7 @@ Proof.
     + subst a. assert (mem v (aliases items) = true) as ->; [|reflexivity].
       apply mem_In. unfold aliases. apply in_flat_map. exists (e, Some v). split; [exact Hit|left; reflexivity].
     + assert ((exists x, e = EVar x) \/ computed_item (e, None) = true) as [[x ->]|C0]
-        by (destruct e; [right|left; eauto|right|right|right|right]; reflexivity).
+        by (destruct e; [right|left; eauto|right|right|right|right|right]; reflexivity).
       * cbn [expr_name] in Nm. subst x.
         rewrite forallb_forall in Wi. specialize (Wi _ Hit). cbn [fst expr_vars] in Wi.
         rewrite (IH v W (subsetb_mem _ _ Wi v (or_introl eq_refl)) Hi). apply orb_true_r.
@@ -435,7 +435,7 @@ Proof.
     apply andb_true_iff in W as [Wi W]. rewrite mem_app in Hd. apply orb_false_iff in Hd as [Hc Hi].
     apply mem_map_In in S as (it & Hit & Nm).
     destruct (plain_item it) eqn:PI.
-    + destruct it as [[ | x | | | | ] [a|]]; try discriminate PI.
+    + destruct it as [[ | x | | | | | ] [a|]]; try discriminate PI.
       unfold item_name in Nm. cbn [snd fst expr_name] in Nm. subst x.
       rewrite forallb_forall in Wi. specialize (Wi _ Hit). cbn [fst expr_vars] in Wi.
       apply IH; [exact W| |exact Hi]. apply (subsetb_mem _ _ Wi v (or_introl eq_refl)).
@@ -456,7 +456,7 @@ Proof.
     rewrite mem_app in S. rewrite mem_app. apply orb_true_iff in S as [S|S].
     + apply mem_map_In in S as (g & Hg' & Nm).
       assert ((exists x, g = EVar x) \/ (match g with EVar _ => false | _ => true end) = true) as [[x ->]|C0]
-        by (destruct g; [right|left; eauto|right|right|right|right]; reflexivity).
+        by (destruct g; [right|left; eauto|right|right|right|right|right]; reflexivity).
       * cbn [expr_name] in Nm. subst x.
         assert (mem v (flat_map expr_vars gs) = true) as ->; [|reflexivity].
         apply mem_In, in_flat_map. exists (EVar v). split; [exact Hg'|left; reflexivity].
@@ -534,7 +534,7 @@ Proof.
         intros it Hit C E. assert (mem v H = true) as MH.
         { apply HH. rewrite mem_app. apply orb_true_iff. left. unfold odd_items. apply mem_map_In. exists it.
           split; [apply filter_In; split; [exact Hit|]|exact E].
-          destruct it as [[ | x | | | | ] [a|]]; cbn in C |- *; congruence. }
+          destruct it as [[ | x | | | | | ] [a|]]; cbn in C |- *; congruence. }
         rewrite (disjointb_true _ _ D v Hv) in MH. discriminate. }
       split; [exact P|]. destruct (passes_through_var v items P) as (it & Hit & Ev).
       rewrite forallb_forall in Wi. specialize (Wi it Hit). rewrite Ev in Wi. cbn [expr_vars] in Wi.
